@@ -1041,7 +1041,13 @@ var perturbStrings = []string{"é", "héllo", "日", "日本語", "üñ", "ab", 
 // Perturb replaces one leaf of a valid raw tree with a plausible value of a similar kind that sits near
 // a boundary of some constraint (multi-byte strings, off-by-one numbers, extreme floats, blank strings).
 // Whether the schema still accepts the result is for the schema to say.
-func Perturb(r *wk.Rand, v any) (any, string) {
+func Perturb(r *wk.Rand, v any) (any, string) { return perturb(r, v, false) }
+
+// PerturbNative is Perturb restricted to replacements of the same Go type as the leaf (int64, float64,
+// string, bool), so that the result is still a value in native form.
+func PerturbNative(r *wk.Rand, v any) (any, string) { return perturb(r, v, true) }
+
+func perturb(r *wk.Rand, v any, native bool) (any, string) {
 	type leaf struct {
 		path string
 		set  func(any)
@@ -1077,6 +1083,25 @@ func Perturb(r *wk.Rand, v any) (any, string) {
 	}
 	l := wk.Pick(r, leaves)
 	var nv any
+	if native {
+		switch x := l.val.(type) {
+		case int64:
+			nv = wk.Pick(r, []int64{x + 1, x - 1, 0, -x, math.MaxInt64, math.MinInt64, x + 2, x - 2})
+		case float64:
+			nv = wk.Pick(r, []float64{math.Nextafter(x, math.Inf(1)), math.Nextafter(x, math.Inf(-1)), math.NaN(), math.Inf(-1), math.Inf(1), math.Copysign(0, -1), x * 2, x + 1, x - 1})
+		case string:
+			nv = wk.Pick(r, perturbStrings)
+			if r.Chance(50) {
+				nv = x + wk.Pick(r, []string{"é", "日", "x", " ", "éé"})
+			}
+		case bool:
+			nv = !x
+		default:
+			nv = l.val
+		}
+		l.set(nv)
+		return root, l.path
+	}
 	switch x := l.val.(type) {
 	case int64:
 		nv = wk.Pick(r, []any{x + 1, x - 1, int64(0), -x, float64(x) + 0.5, math.Inf(1), 1e19, uint64(math.MaxUint64), fmt.Sprint(x) + " ", " ", "\t", fmt.Sprintf("%d.0", x), float32(x)})
